@@ -1485,10 +1485,14 @@ fn eval_call(
                     if let Some(this) = source {
                         // TODO Consider how to avoid creating a
                         // new AST variable node here.
+                        //
+                        // The node is given the location of the call, so that
+                        // a failure to bind `this` (because a parameter has
+                        // that name) is reported at a location in the script.
                         bindings.push((
                             (
                                 RawExpr::Var{name: "this".to_string()},
-                                (0, 0),
+                                (*line, *col),
                             ),
                             value::new_val_ref_with_no_source(this),
                         ));
